@@ -238,6 +238,7 @@ func init() {
 				add(4, 1, rev)
 				add(5, 2, rev)
 				add(5, 3, rev)
+				add(5, 4, rev)
 				if tier == "thorough" {
 					add(6, 2, rev)
 					add(6, 3, rev)
@@ -247,7 +248,7 @@ func init() {
 			return js
 		},
 		bounds: map[string]any{
-			"quick":    map[string]any{"files": "3 messages in 3 chunks; 4 messages in 2 and in 4 chunks; 5 messages in 3 chunks (2+2+1) and in 2 chunks (3+2)", "channels": 2, "symbolic": "every log time (full 64 bit), payload bytes", "reads": "each order twice"},
+			"quick":    map[string]any{"files": "3 messages in 3 chunks; 4 messages in 2 and in 4 chunks; 5 messages in 3 chunks (2+2+1) and in 2 chunks (3+2, 4+1)", "channels": 2, "symbolic": "every log time (full 64 bit), payload bytes", "reads": "each order twice"},
 			"thorough": map[string]any{"files": "as quick + 6 messages (2 or 3 per chunk) and 7 messages (3 per chunk)", "channels": 2, "symbolic": "every log time (full 64 bit)"},
 		},
 		outside:     append([]string{"more than 7 messages / 4 chunks (in particular: more than 12 pending message indexes, where a library sort may switch algorithm)", "combination with time windows and topic filters is decided in C04"}, outsideCommon...),
@@ -264,7 +265,10 @@ func init() {
 				if idx == 0 && ord != 0 {
 					return
 				}
-				js = append(js, &Job{Module: "mcap", Harness: "VC04Select", Params: P("n", n, "per", per, "topics", topics, "idx", idx, "ord", ord, "spell", spell), TimeoutS: 900})
+				js = append(js, &Job{Module: "mcap", Harness: "VC04Select", Params: P("n", n, "per", per, "topics", topics, "idx", idx, "ord", ord, "spell", spell, "skip", 0), TimeoutS: 900})
+			}
+			addskip := func(n, per, topics, ord, spell, skip int) {
+				js = append(js, &Job{Module: "mcap", Harness: "VC04Select", Params: P("n", n, "per", per, "topics", topics, "idx", 1, "ord", ord, "spell", spell, "skip", skip), TimeoutS: 900})
 			}
 			if tier == "quick" {
 				for spell := 0; spell <= 8; spell++ {
@@ -274,7 +278,16 @@ func init() {
 				add(4, 2, 3, 1, 1, 0)
 				add(4, 2, 1, 1, 2, 4)
 				add(3, 1, 5, 1, 2, 1)
+				addskip(3, 2, 1, 0, 0, 1) // no message indexes: topic selection must not prune chunks
+				addskip(3, 2, 2, 1, 4, 1)
+				addskip(3, 2, 5, 2, 5, 1|2)
 				return js
+			}
+			for topics := 0; topics <= 5; topics++ {
+				for ord := 0; ord <= 2; ord++ {
+					addskip(3, 2, topics, ord, (topics+ord)%9, 1)
+					addskip(4, 2, topics, ord, (topics+2*ord)%5, 1|2)
+				}
 			}
 			for _, shape := range [][2]int{{3, 1}, {4, 2}} {
 				for topics := 0; topics <= 5; topics++ {
@@ -293,7 +306,7 @@ func init() {
 			return js
 		},
 		bounds: map[string]any{
-			"quick":    map[string]any{"files": "3 messages/2 chunks and 4 messages/3 chunks, 3 channels (two share topic a, one has no message)", "symbolic": "all log times, window start and end (64 bit, start<=end)", "enumerated": "9 spellings of the window x topic sets {none,a,b,ab,unknown,a+unknown} x indexed/non-indexed x 3 orders (a diagonal sample of 21 jobs)"},
+			"quick":    map[string]any{"files": "3 messages/2 chunks and 4 messages/3 chunks, 3 channels (two share topic a, one has no message)", "symbolic": "all log times, window start and end (64 bit, start<=end)", "enumerated": "9 spellings of the window x topic sets {none,a,b,ab,unknown,a+unknown} x indexed/non-indexed x 3 orders (a diagonal sample of 21 jobs) + 3 jobs on files written without message indexes / statistics"},
 			"thorough": map[string]any{"files": "as quick", "enumerated": "the full product: 6 topic sets x indexed/non-indexed x 3 orders x 9 spellings (3-message file), x 5 spellings (4-message file)"},
 		},
 		outside:     append([]string{"negative arguments to the deprecated int64 options", "windows with start > end (rejected by the API)"}, outsideCommon...),
@@ -367,9 +380,10 @@ func init() {
 				add(2, 2, 2, 0, 1000)
 				add(4, 2, 3, 0, 1000)
 				add(4, 1, 2, 0, 1000)
+				add(5, 2, 3, 0, 1000)
 				return js
 			}
-			for tpl := 0; tpl <= 4; tpl++ {
+			for tpl := 0; tpl <= 5; tpl++ {
 				for _, nk := range []int{2, 3} {
 					for _, c := range [][2]int{{3, 1}, {3, 40}, {3, 1000}, {2, 1000}, {1, 1}} {
 						if tpl == 3 && nk == 3 {
@@ -382,7 +396,7 @@ func init() {
 			return js
 		},
 		bounds: map[string]any{
-			"quick":    map[string]any{"workloads": "5 mixes (channel metadata map / Metadata record / two channels + metadata / schema + three channels over several chunks (thorough) / two schemas + two channels in descending id order)", "map_entries": "2-3 per map, symbolic one-byte keys and values (so equal keys and every key order are included)", "iteration_orders": "every permutation of every range over a map, in the writer and in everything it calls", "options": "chunked (chunk size 1/40/1000) and unchunked, CRC on/off"},
+			"quick":    map[string]any{"workloads": "5 mixes (channel metadata map / Metadata record / two channels + metadata / schema + three channels over several chunks (thorough) / two schemas + two channels in descending id order / five registered channels of which two carry messages in one chunk)", "map_entries": "2-3 per map, symbolic one-byte keys and values (so equal keys and every key order are included)", "iteration_orders": "every permutation of every range over a map, in the writer and in everything it calls", "options": "chunked (chunk size 1/40/1000) and unchunked, CRC on/off"},
 			"thorough": map[string]any{"workloads": "as quick x map sizes 2,3 x 5 option sets"},
 		},
 		outside:     append([]string{"independence from GOMAXPROCS, from other goroutines and from concurrent writer/reader instances, and race-freedom: the engine has no scheduler model and the code in scope starts no goroutine (zstd, which does, is outside) - this clause of C13 is NOT decided", "maps with more than 3 entries"}, outsideCommon...),
@@ -609,10 +623,22 @@ func init() {
 		jobs: func(tier string) []*Job {
 			var js []*Job
 			slots := func(n, per, ord int) {
-				js = append(js, &Job{Module: "mcap", Harness: "VC20Slots", Params: P("n", n, "per", per, "ord", ord, "win", 0), TimeoutS: 2400})
+				js = append(js, &Job{Module: "mcap", Harness: "VC20Slots", Params: P("n", n, "per", per, "ord", ord, "win", 0, "grow", 0), TimeoutS: 2400})
 				if n <= 4 || (tier == "thorough" && n <= 5) {
-					js = append(js, &Job{Module: "mcap", Harness: "VC20Slots", Params: P("n", n, "per", per, "ord", ord, "win", 1), TimeoutS: 2400})
+					js = append(js, &Job{Module: "mcap", Harness: "VC20Slots", Params: P("n", n, "per", per, "ord", ord, "win", 1, "grow", 0), TimeoutS: 2400})
 				}
+			}
+			for ord := 0; ord <= 2; ord++ {
+				// chunk sizes growing along the file (a slot must be reused even when the next chunk is larger)
+				js = append(js, &Job{Module: "mcap", Harness: "VC20Slots", Params: P("n", 3, "per", 1, "ord", ord, "win", 0, "grow", 1), TimeoutS: 2400})
+			}
+			for ord := 1; ord <= 2; ord++ {
+				if ord == 2 && tier == "quick" {
+					continue
+				}
+				// three chunks, two of two messages, under a window: the smallest shape in which loading ONE more chunk
+				// before yielding is not enough
+				js = append(js, &Job{Module: "mcap", Harness: "VC20Slots", Params: P("n", 5, "per", 2, "ord", ord, "win", 1, "grow", 0), TimeoutS: 2400})
 			}
 			lexer := func(tpl, cs, validate int) {
 				js = append(js, &Job{Module: "mcap", Harness: "VC20Lexer", Params: P("tpl", tpl, "cs", cs, "validate", validate), TimeoutS: 600})
@@ -648,7 +674,7 @@ func init() {
 			return js
 		},
 		bounds: map[string]any{
-			"quick":    map[string]any{"index_based": "files of 3 messages/3 chunks, 4 messages/3 chunks, 4 messages/4 chunks; every log time symbolic (64 bit): every overlap/nesting/backwards arrangement of the chunk time ranges; the bound (overlap depth, computed from the symbolic chunk ranges; 1 in file order) is asserted after every NextInto, in all three orders, without and with a symbolic time window [s,e)", "sequential": "T5/T6 at three chunk sizes: single chunk buffer, replaced only by a larger one, <= 2x largest chunk, none when not validating", "attachments": "70000 and 33000 data bytes (symbolic content) through WriteAttachment and the lexer (with a callback reading in 4 KiB pieces, and with no callback, also under the non-indexed iterator) with a ceiling of 33000/32900 bytes on any single library allocation (io.Copy's fixed 32 KiB buffer is the largest)"},
+			"quick":    map[string]any{"index_based": "files of 3 messages/3 chunks (also with chunk sizes growing along the file), 4 messages/2 chunks, 4 messages/4 chunks, 5 messages/3 chunks (windowed, time orders); every log time symbolic (64 bit): every overlap/nesting/backwards arrangement of the chunk time ranges; the bound (overlap depth, computed from the symbolic chunk ranges; 1 in file order) is asserted after every NextInto, in all three orders, without and with a symbolic time window [s,e); the windowed reads are also checked for order and for returning exactly the messages inside the window", "sequential": "T5/T6 at three chunk sizes: single chunk buffer, replaced only by a larger one, <= 2x largest chunk, none when not validating", "attachments": "70000 and 33000 data bytes (symbolic content) through WriteAttachment and the lexer (with a callback reading in 4 KiB pieces, and with no callback, also under the non-indexed iterator) with a ceiling of 33000/32900 bytes on any single library allocation (io.Copy's fixed 32 KiB buffer is the largest)"},
 			"thorough": map[string]any{"index_based": "up to 6 messages / 5 chunks", "attachments": "up to 200000 bytes"},
 		},
 		outside:     append([]string{"more than 6 chunks (the property mentions 1000 chunks and overlap depth 8: far outside)", "attachment sizes are enumerated, not symbolic", "process-level memory (RSS); zstd/lz4 decoder buffers"}, outsideCommon...),
@@ -781,6 +807,8 @@ func init() {
 				add(3, part, 0, 0, 511, 0, 0, 1, 1)
 				add(3, part, 1, 4, 511, 0, 0, 3, 0)
 				add(3, part, 2, 2, 511, 6, 2, 2, 1)
+				add(3, part, 0, 0, 511, 0, 0, 10, 1) // a whole extra "entry" after count-prefixed lists
+				add(3, part, 1, 5, 511, 0, 0, 20, 0)
 			}
 			for _, unk := range []int{1, 5, 6, 7, 8} {
 				add(3, 0, 0, unk, 511, unk, 3, 0, 0)
@@ -789,7 +817,7 @@ func init() {
 			return js
 		},
 		bounds: map[string]any{
-			"quick":    map[string]any{"content": "as C12 (3 messages, attachment, metadata)", "unknown_record": "opcode symbolic over 0x10..0xFF, body of 0 or 3 symbolic bytes, inserted at each of 8 position classes: after the header, at the start and at the end of a chunk's records, between a chunk and its message indexes, right before DataEnd, at the start of the summary, between two summary groups, after the summary offsets", "appended_fields": "1 and 3 symbolic bytes appended to every extensible record (all but message, chunk, data end, footer) with all offsets recomputed", "layouts": "one message per chunk (thorough: 3 partitions) and unchunked", "oracle": "the logical content itself: every reader must return exactly it"},
+			"quick":    map[string]any{"content": "as C12 (3 messages, attachment, metadata)", "unknown_record": "opcode symbolic over 0x10..0xFF, body of 0 or 3 symbolic bytes, inserted at each of 8 position classes: after the header, at the start and at the end of a chunk's records, between a chunk and its message indexes, right before DataEnd, at the start of the summary, between two summary groups, after the summary offsets", "appended_fields": "1, 3, 10 and 20 symbolic bytes appended to every extensible record (all but message, chunk, data end, footer) with all offsets recomputed", "layouts": "one message per chunk (thorough: 3 partitions) and unchunked", "oracle": "the logical content itself: every reader must return exactly it"},
 			"thorough": map[string]any{"unknown_record": "bodies 0,1,3,5; combined with padding"},
 		},
 		outside:     append([]string{"opcodes 0x10..0x7F are 'reserved for future use' and 0x80..0xFF private: both are unknown to the library and both are covered; opcode 0x00 is invalid by specification and not inserted", "bytes appended to message, chunk, data end and footer records (not extensible by specification)"}, outsideCommon...),
@@ -852,12 +880,12 @@ func init() {
 				max = 8
 			}
 			js = append(js, &Job{Module: "ros1msg", Harness: "VC19ArrayType", Params: P("max", max), TimeoutS: 1800})
-			js = append(js, &Job{Module: "ros1msg", Harness: "VC19Resolve", Params: P("k", 11, "comments", 0), TimeoutS: 1800})
-			js = append(js, &Job{Module: "ros1msg", Harness: "VC19Resolve", Params: P("k", 11, "comments", 1), TimeoutS: 1800})
+			js = append(js, &Job{Module: "ros1msg", Harness: "VC19Resolve", Params: P("k", 11, "comments", 0, "twice", 0), TimeoutS: 1800})
+			js = append(js, &Job{Module: "ros1msg", Harness: "VC19Resolve", Params: P("k", 11, "comments", 1, "twice", 1), TimeoutS: 1800})
 			return js
 		},
 		bounds: map[string]any{
-			"quick":    map[string]any{"array_suffix_kernel": "parseArrayType on every string of up to 6 bytes (bytes and length symbolic): no panic, and its result equals the specification (first-bracket positions, empty/decimal/other size)", "resolver": "ParseMessageDefinition on generated definitions: a root and two dependent types p/A, p/B (+ std_msgs/Header), each with one field whose type is a symbolic selector over an 11-entry menu (primitive, unqualified/qualified nested, Header, variable and fixed arrays of primitives and records, a missing type) case-split by the solver: 1331 definitions incl. every self- and mutual reference; with and without comment/constant/blank lines. Expected tree computed by an independent resolver; missing types and cycles must give an error; recursion beyond the unwinding bound (200 calls) is a violation", "regexp": "the field regexp is compiled and matched natively on the (concrete, per path) line text"},
+			"quick":    map[string]any{"array_suffix_kernel": "parseArrayType on every string of up to 6 bytes (bytes and length symbolic): no panic, and its result equals the specification (first-bracket positions, empty/decimal/other size)", "resolver": "ParseMessageDefinition on generated definitions: a root and two dependent types p/A, p/B (+ std_msgs/Header), each with one field whose type is a symbolic selector over an 11-entry menu (primitive, unqualified/qualified nested, Header, variable and fixed arrays of primitives and records, a missing type) case-split by the solver: 1331 definitions incl. every self- and mutual reference; with and without comment/constant/blank lines (comments containing '=' and '#'), and with the root's field type used twice (second field separated by space+tab). Expected tree computed by an independent resolver; missing types and cycles must give an error; recursion beyond the unwinding bound (200 calls) is a violation", "regexp": "the field regexp is compiled and matched natively on the (concrete, per path) line text"},
 			"thorough": map[string]any{"array_suffix_kernel": "up to 8 bytes"},
 		},
 		outside:     []string{"definition TEXT is generated from selectors, not arbitrary bytes: regexp matching, strings.Split/TrimSpace over symbolic text are out of reach (rune loops over input-sized text fork on every byte)", "more than two dependent types, more than one field per type", "stack/time bounds on adversarial non-cyclic inputs (deep but finite nesting)"},
